@@ -19,14 +19,17 @@ for _p, _enum in (('4', IPv4Fields), ('6', IPv6Fields), ('U', UDPFields), ('C', 
         FID[str(_m.value)] = (_p, _i)
 FID['Payload'] = ('O', 0)
 _OTHER = {}
+import re as _re
+_UNKNOWN_RE = _re.compile(r'^(?:CoAP:Option Unknown|CoAPFields\.OPTION_UNKNOWN)\((\d+)\)$')
 
 
 def fid_of(id_):
     s = str(id_.value) if hasattr(id_, 'value') else str(id_)
     if s in FID:
         return FID[s]
-    if s.startswith('CoAP:Option Unknown('):
-        return ('C', 1000 + int(s[len('CoAP:Option Unknown('):-1]))
+    m = _UNKNOWN_RE.match(s)      # 'CoAP:Option Unknown(n)' (the f-string of the member prints differently across Python versions)
+    if m:
+        return ('C', 1000 + int(m.group(1)))
     if s not in _OTHER:
         _OTHER[s] = ('O', 1 + len(_OTHER))
     return _OTHER[s]
